@@ -3,93 +3,9 @@
 package store
 
 import (
-	"encoding/binary"
-
 	"github.com/douban/gobeansdb/utils"
 	vrt "github.com/douban/gobeansdb/zzvrt"
 )
-
-// ---- reference definitions, written from the historical beansdb specification ----
-
-// refFnv1aSigned: FNV-1a 32 where each byte is sign-extended before the xor
-// (the historical quirk: the C code hashed `char`).
-func refFnv1aSigned(b []byte) uint32 {
-	h := uint32(2166136261)
-	for i := 0; i < len(b); i++ {
-		x := uint32(b[i])
-		x |= (0 - (x >> 7)) << 8 // sign extension of the byte, branch-free
-		h = (h ^ x) * 16777619
-	}
-	return h
-}
-
-func rotl32(x uint32, r uint) uint32 { return (x << r) | (x >> (32 - r)) }
-
-// refMurmur3_32: MurmurHash3 x86_32, seed 0, from the published algorithm.
-func refMurmur3_32(data []byte) uint32 {
-	const c1, c2 = 0xcc9e2d51, 0x1b873593
-	h := uint32(0)
-	n := len(data) / 4
-	for i := 0; i < n; i++ {
-		k := binary.LittleEndian.Uint32(data[4*i:])
-		k *= c1
-		k = rotl32(k, 15)
-		k *= c2
-		h ^= k
-		h = rotl32(h, 13)
-		h = h*5 + 0xe6546b64
-	}
-	tail := data[4*n:]
-	var k uint32
-	switch len(tail) {
-	case 3:
-		k ^= uint32(tail[2]) << 16
-		fallthrough
-	case 2:
-		k ^= uint32(tail[1]) << 8
-		fallthrough
-	case 1:
-		k ^= uint32(tail[0])
-		k *= c1
-		k = rotl32(k, 15)
-		k *= c2
-		h ^= k
-	}
-	h ^= uint32(len(data))
-	h ^= h >> 16
-	h *= 0x85ebca6b
-	h ^= h >> 13
-	h *= 0xc2b2ae35
-	h ^= h >> 16
-	return h
-}
-
-// refCrc32Step: one byte of reflected CRC-32 (poly 0xEDB88320), bit by bit.
-func refCrc32Step(crc uint32, b byte) uint32 {
-	crc ^= uint32(b)
-	for k := 0; k < 8; k++ {
-		// non-forking conditional: (crc&1) ? (crc>>1)^poly : crc>>1
-		crc = vrt.IteU32(crc&1 != 0, (crc>>1)^0xEDB88320, crc>>1)
-	}
-	return crc
-}
-
-func refCrc32(parts ...[]byte) uint32 {
-	crc := ^uint32(0)
-	for _, p := range parts {
-		for _, b := range p {
-			crc = refCrc32Step(crc, b)
-		}
-	}
-	return ^crc
-}
-
-func hashLens() (lo, hi int) {
-	if vrt.Tier() > 0 {
-		return 0, 12
-	}
-	return 0, 8
-}
 
 // C16-K1: both FNV copies equal the signed-byte reference for every input of length 0..2
 // (whole function; longer whole-stream equalities come back unknown from the solver and
